@@ -297,3 +297,23 @@ Print Assumptions C13_merger_never_moves_a_minimal_prefix.
 Theorem C13_sortedness_precondition_is_necessary :
   ltac:(let T := type of TSemSemJoin.JoinExamples.join_unsorted_differs in exact T).
 Proof. exact TSemSemJoin.JoinExamples.join_unsorted_differs. Qed.
+
+(* ------------------------------------------------------------------ THE PROGRAM LEVEL, second half:
+   the `join` built-in (Compile/TSemJoinFn.v).  Sem.v does not specify `join`, so the theorem is
+   about the bit-level semantics of the EJoin node directly (and, through C01, about the emitted
+   circuits): for element vectors whose keys are ASCENDING (repeats allowed), any lengths and
+   widths, the result has n + m - 1 entries of equal width; the flags are sorted, unflagged first,
+   so the flag vector depends only on the number of matches; every unflagged entry is all zeros;
+   the flagged entries are exactly one per common key, each built from an element of a and an
+   element of b with that key (never two elements of one array); the panic observation is
+   unchanged.  WHICH copy of a repeated key is reported is not determined
+   (JoinFnExamples.repeated_key_choice shows both choices occur). *)
+From GV Require Compile.TSemJoinFn.
+
+Theorem C13_join_builtin_spec : ltac:(let T := type of TSemJoinFn.join_fn_spec in exact T).
+Proof. exact TSemJoinFn.join_fn_spec. Qed.
+Print Assumptions C13_join_builtin_spec.
+
+Theorem C13_join_expression_spec : ltac:(let T := type of TSemJoinFn.join_expr_spec in exact T).
+Proof. exact TSemJoinFn.join_expr_spec. Qed.
+Print Assumptions C13_join_expression_spec.
